@@ -178,6 +178,16 @@ func cmdFunc(args []string) int {
 			fmt.Println("  dumped to", fn)
 		}
 	}
+	if os.Getenv("GOVC_COVER") != "" {
+		// which return statements are reachable under the assumptions? (debugging aid for vacuity)
+		for _, rp := range x.rootRets {
+			o := &Obligation{Name: "cover", Kind: "vacuity", Guard: rp.pc, Cond: x.B.False(), NAssum: len(x.assums)}
+			q, _, _ := x.buildQuery(o, false, false)
+			os.WriteFile(fmt.Sprintf("/var/tmp/verif-scratch/cover_%s.smt2", sanitize(rp.pos)), []byte(q), 0o644)
+			sr := Solve(q, "cover", *timeout)
+			fmt.Printf("  cover: return at %s: %s (%s, %.1fs)\n", rp.pos, map[string]string{"sat": "reachable", "unsat": "UNREACHABLE", "unknown": "unknown", "timeout": "unknown(timeout)"}[sr.Status], sr.Solver, sr.Seconds)
+		}
+	}
 	for _, wn := range x.warnings {
 		fmt.Println("  warning:", wn)
 	}
